@@ -23,6 +23,8 @@ import (
 
 	erpc "github.com/henrylee2cn/erpc/v6"
 	"github.com/henrylee2cn/erpc/v6/plugin/auth"
+	"github.com/henrylee2cn/erpc/v6/plugin/heartbeat"
+	"github.com/henrylee2cn/erpc/v6/plugin/overloader"
 
 	"verifharness/bed"
 	"verifharness/core"
@@ -72,7 +74,14 @@ type connSpec struct {
 type caseDesc struct {
 	Class string     `json:"class"`
 	Conns []connSpec `json:"conns"`
+	// further PostAccept plug-ins to the LEFT and to the RIGHT of the auth checker in the peer's plug-in list:
+	// ok (harness recorder returning OK) | refuse (harness plug-in refusing some connections) | overloader (the
+	// shipped plug-in, generous limits) | hb (the accept hook of the shipped heartbeat plug-in)
+	Left  []string `json:"left,omitempty"`
+	Right []string `json:"right,omitempty"`
 }
+
+var arrangeKinds = []string{"ok", "ok", "overloader", "hb", "refuse"}
 
 var firstClasses = []string{
 	"auth-good", "auth-bad", "auth-good+calls", "auth-bad+calls",
@@ -111,6 +120,7 @@ type connRec struct {
 	checkerCalls   int
 	checkerRet     int64
 	assignedID     string
+	trail          []string      // the PostAccept hooks (harness plug-ins and the checker) in the order they ran, "!" = refused
 	gate           chan struct{} // released by the harness: the parked checker gives its verdict
 	gateTimedOut   bool
 	parked         bool
@@ -179,6 +189,11 @@ func checker(sess auth.Session, fn auth.RecvOnce) (ret interface{}, stat *erpc.S
 		p := recover()
 		at := stamp()
 		rec.mu.Lock()
+		if p == nil && stat.OK() {
+			rec.trail = append(rec.trail, "auth-checker")
+		} else {
+			rec.trail = append(rec.trail, "auth-checker!")
+		}
 		rec.checkerRet = at
 		rec.verdictReached = true
 		rec.panicked = p != nil
@@ -257,6 +272,55 @@ func AppCall(ctx erpc.CallCtx, arg *string) (string, *erpc.Status) {
 func AppPush(ctx erpc.PushCtx, arg *string) *erpc.Status {
 	noteHandler(ctx.IP(), "push")
 	return nil
+}
+
+// acceptPlugin is "another PostAccept plug-in" next to the checker: it records that it ran and either lets the
+// connection through, refuses some connections (by the connection's seed), or runs a shipped plug-in's accept hook.
+type acceptPlugin struct {
+	name   string
+	refuse bool
+	inner  erpc.PostAcceptPlugin
+}
+
+func (a *acceptPlugin) Name() string { return a.name }
+func (a *acceptPlugin) PostAccept(sess erpc.PreSession) *erpc.Status {
+	rec := lookup(sess.RemoteAddr().String())
+	var st *erpc.Status
+	switch {
+	case a.inner != nil:
+		st = a.inner.PostAccept(sess)
+	case a.refuse && (rec.spec.Seed>>3)&1 == 1:
+		st = erpc.NewStatus(470, "not today", "refused by "+a.name)
+	}
+	rec.mu.Lock()
+	if st.OK() {
+		rec.trail = append(rec.trail, a.name)
+	} else {
+		rec.trail = append(rec.trail, a.name+"!")
+	}
+	rec.mu.Unlock()
+	return st
+}
+
+// arrangement builds the plug-ins of one side of the checker.
+func arrangement(side string, kinds []string) []erpc.Plugin {
+	var out []erpc.Plugin
+	for i, k := range kinds {
+		name := fmt.Sprintf("c16-%s%d-%s", side, i+1, k)
+		switch k {
+		case "ok":
+			out = append(out, &acceptPlugin{name: name})
+		case "refuse":
+			out = append(out, &acceptPlugin{name: name, refuse: true})
+		case "hb": // the accept hook of the shipped heartbeat plug-in (its worker goroutine is not started)
+			out = append(out, &acceptPlugin{name: name, inner: heartbeat.NewPing(3, false)})
+		case "overloader": // the shipped plug-in itself, limits far away
+			out = append(out, &acceptPlugin{name: name + "-before"}, overloader.New(overloader.LimitConfig{MaxConn: 100000}), &acceptPlugin{name: name + "-after"})
+		default:
+			core.Fatalf("unknown plug-in kind %q", k)
+		}
+	}
+	return out
 }
 
 // namer is "a PostAccept plug-in before the checker" that names the session before any verdict.
@@ -634,7 +698,7 @@ func describe(rec *connRec, fs []outFrame, tail int) map[string]interface{} {
 	defer rec.mu.Unlock()
 	d := map[string]interface{}{
 		"spec": rec.spec, "client_bytes": len(rec.script), "checker_calls": rec.checkerCalls, "verdict_reached": rec.verdictReached,
-		"verdict_ok": rec.verdictOK, "id_assigned_by_checker": rec.assignedID, "early_operations": rec.early, "checker_panicked": rec.panicked, "checker_return_stamp": rec.checkerRet,
+		"verdict_ok": rec.verdictOK, "accept_hooks_in_order": rec.trail, "id_assigned_by_checker": rec.assignedID, "early_operations": rec.early, "checker_panicked": rec.panicked, "checker_return_stamp": rec.checkerRet,
 		"handlers": rec.handlers, "hooks": rec.hooks, "server_wrote_bytes": len(rec.out), "server_frames": fs, "unparsable_tail_bytes": tail,
 		"serveconn_returned": atomic.LoadInt32(&rec.served) == 1, "server_end_closed": rec.cb.IsClosed(),
 	}
@@ -647,7 +711,11 @@ func describe(rec *connRec, fs []outFrame, tail int) map[string]interface{} {
 func runCase(id string, c caseDesc) {
 	cs := &caseState{conns: map[string]*connRec{}}
 	cur.Store(cs)
-	srv := erpc.NewPeer(erpc.PeerConfig{}, recorder{}, namer{}, auth.NewCheckerPlugin(checker, erpc.WithBodyCodec('s')))
+	plugins := []erpc.Plugin{recorder{}, namer{}}
+	plugins = append(plugins, arrangement("L", c.Left)...)
+	plugins = append(plugins, auth.NewCheckerPlugin(checker, erpc.WithBodyCodec('s')))
+	plugins = append(plugins, arrangement("R", c.Right)...)
+	srv := erpc.NewPeer(erpc.PeerConfig{}, plugins...)
 	rt := routes{call: srv.RouteCallFunc(AppCall), push: srv.RoutePushFunc(AppPush)}
 	srv.SetUnknownCall(func(ctx erpc.UnknownCallCtx) (interface{}, *erpc.Status) {
 		noteHandler(ctx.IP(), "unknown-call")
@@ -815,6 +883,17 @@ func runCase(id string, c caseDesc) {
 			core.Add("conns_with_server_bytes", 1)
 		}
 		rec.mu.Unlock()
+		// which accept hooks ran after a refusal (recorded, not asserted: the statement does not speak about it)
+		rec.mu.Lock()
+		after := false
+		for _, t := range rec.trail {
+			if after {
+				core.Add("accept_hooks_run_after_a_refusal", 1)
+			}
+			after = after || strings.HasSuffix(t, "!")
+		}
+		rec.mu.Unlock()
+		core.Distinct("arrangements", fmt.Sprintf("L=%s|R=%s", strings.Join(c.Left, "+"), strings.Join(c.Right, "+")))
 		core.Add("evaluations", 1)
 		core.Add("connections", 1)
 		core.Distinct("nontrivial", fmt.Sprintf("%s/%s/%s/%s/%s", rec.spec.First, rec.spec.Verdict, rec.spec.Timing, rec.spec.After, outcome))
@@ -840,6 +919,9 @@ func runCase(id string, c caseDesc) {
 		if rec.spec.Early != "" {
 			vclass += "+" + rec.spec.Early
 		}
+		if len(c.Right) > 0 {
+			vclass += "@right=" + strings.Join(c.Right, "+")
+		}
 		fp := fmt.Sprintf("%s/%s/%s/%s", *prop, rec.spec.First, vclass, f.symptom)
 		if seen[fp] {
 			continue
@@ -853,7 +935,7 @@ func runCase(id string, c caseDesc) {
 		k++
 		fs, tail := parseOut(rec.out)
 		// the minimal reproduction is this one connection alone
-		desc := caseDesc{Class: c.Class, Conns: []connSpec{rec.spec}}
+		desc := caseDesc{Class: c.Class, Conns: []connSpec{rec.spec}, Left: c.Left, Right: c.Right}
 		core.Result(core.R{ID: rid, Verdict: core.Violated, FP: fp, What: fmt.Sprintf("%s / checker %s: %s", rec.spec.First, rec.spec.Verdict, f.detail),
 			Witness: describe(rec, fs, tail), Desc: desc})
 	}
@@ -1130,7 +1212,24 @@ func main() {
 			n = len(conns) - i
 		}
 		g := conns[i : i+n]
-		cases = append(cases, caseDesc{Class: classOf(g), Conns: g})
+		cd := caseDesc{Class: classOf(g), Conns: g}
+		// 0..2 further accept plug-ins on either side of the checker (the overloader at most once per peer)
+		pick := func(n int, used map[string]bool) []string {
+			var l []string
+			for len(l) < n {
+				k := arrangeKinds[r.Intn(len(arrangeKinds))]
+				if k == "overloader" && used[k] {
+					continue
+				}
+				used[k] = true
+				l = append(l, k)
+			}
+			return l
+		}
+		used := map[string]bool{}
+		cd.Left = pick([]int{0, 0, 1, 2}[r.Intn(4)], used)
+		cd.Right = pick([]int{0, 1, 1, 2}[r.Intn(4)], used)
+		cases = append(cases, cd)
 		i += n
 	}
 	for i, c := range cases {
